@@ -244,6 +244,27 @@ func newSchedReadException(w *World, la *lockAnalysis) *schedReadException {
 				before = true
 			}
 		})
+		// (i'') the spawner is a helper with exactly one call site (`runJob(job, graph)` called by the start function): the
+		// storer is called by that caller at a site dominating the helper's call
+		if !before {
+			var sites []ssa.Instruction
+			for _, g := range w.ModFuncs {
+				allInstrs(g, func(in ssa.Instruction) {
+					if c := callCommonOf(in); c != nil && c.StaticCallee() == e.spawner {
+						sites = append(sites, in)
+					}
+				})
+			}
+			if len(sites) == 1 {
+				if _, isCall := sites[0].(*ssa.Call); isCall {
+					allInstrs(sites[0].Parent(), func(in ssa.Instruction) {
+						if c, ok := in.(*ssa.Call); ok && c.Call.StaticCallee() == s && instrDominates(c, sites[0]) {
+							before = true
+						}
+					})
+				}
+			}
+		}
 		// (i') the store is in the spawner itself and dominates the go statement (an inlined initialiser)
 		if s == e.spawner {
 			domAll := true
